@@ -20,7 +20,8 @@ RULE = ("histories of 8-30 ops over 1-3 subjects (user:u1, u2, u10, u1x; some ne
         "(1-3 objects each, type-level (key '') and instance-level, over types channel/chan/rack/range and the zero "
         "id; 1-3 actions): create/delete role and policy (also delete-then-recreate with the same key), SetOnRole, "
         "Assign/Unassign, define/delete subject, making the Users group a parent of subjects / policies (non-role "
-        "parents must grant nothing), begin/commit/abort (30% of the histories on an ontology whose relationship indexes failed to populate at "
+        "parents must grant nothing), begin/commit/abort, one-transaction role replacement (unassign then re-assign the same role, checked on the "
+        "committed view after commit) (30% of the histories on an ontology whose relationship indexes failed to populate at "
         "open, i.e. on the raw-scan fallback of the parents traversal), interleaved with Enforce requests (0-3 objects "
         "mixing covered and uncovered ones, through the open transaction and against the committed view) so that a "
         "check follows directly on a change. Non-trivial = at least one Allow and one Deny verdict and a revocation "
@@ -109,6 +110,24 @@ def gen_case(rng):
         for p in range(1, np_ + 1):
             if rng.random() < 0.4:
                 ops.append({"op": "gadd", "k": p, "s": mkid(("", ""))})
+    if rng.random() < 0.35:
+        # "replace the subject's roles" inside ONE transaction: unassign and re-assign (or assign / unassign /
+        # assign) the SAME role, commit, then check against the committed view
+        if in_tx:
+            ops.append({"op": rng.choice(["commit", "commit", "abort"])})
+        s, r = mkid(rng.choice(subs)), rng.randrange(1, nr + 1)
+        ops.append({"op": "begin"})
+        for k in rng.choice([["unassign", "assign"], ["unassign", "assign"], ["assign", "unassign", "assign"],
+                             ["unassign", "assign", "unassign"], ["assign", "unassign"]]):
+            ops.append({"op": k, "s": s, "r": r})
+            if rng.random() < 0.3:
+                ops.append(gen_enforce(rng, subs, pols, True))
+        ops.append({"op": "commit" if rng.random() < 0.9 else "abort"})
+        in_tx = False
+        for _ in range(rng.choice([1, 2])):
+            e = gen_enforce(rng, subs, pols, False)
+            e["s"] = s
+            ops.append(e)
     for _ in range(rng.randrange(4, 16)):
         x = rng.random()
         if x < 0.45:
